@@ -1024,3 +1024,66 @@ def c09(p, tier, replay):
     return v.finish("model_checking", cov, [
         "caller and implementation live in one process; boxed futures / async methods are exercised by C15's async revisions only at the definition level",
         "memory safety of the generated trampolines is observed through functional symptoms only (results, drop counts)"])
+
+# ------------------------------------------------------------------------------------------------
+# C16: concurrent creation and use of connections
+# ------------------------------------------------------------------------------------------------
+@prop("C16")
+def c16(p, tier, replay):
+    import subprocess
+    v = Verdict(p, tier)
+    r = vlib.run_tlc("CacheMC.tla", "CacheMC_%s.cfg" % tier, "cachemc_" + tier, workers=8, timeout=6000, coverage=True)
+    if r["violated"]:
+        raise ToolError("Cache: TLC reports a violation (deadlock, invariant or liveness) in the specification itself (see %s)" % r["out"])
+    zero = vlib.coverage_zero_actions(r["text"], ["LockE", "LockL", "Symbol", "LockT", "Hit", "Miss", "InterrogateVersion", "InterrogateMethods",
+                                                   "Insert", "UnlockT", "CallEnd"])
+    if zero:
+        raise ToolError("Cache: actions never taken: %s" % zero)
+    binp = abi_build(tier, None, None)
+    vlib.cargo_build("plugin")
+    tdir = os.environ.get("CARGO_TARGET_DIR", os.path.join(HARNESS, "target"))
+    plugin = os.path.join(tdir, "debug", "libplugin.so")
+    obs = os.path.join(WORK, "cache_%s.obs" % tier)
+    if os.path.exists(obs):
+        os.remove(obs)
+    base = vlib.seed() * 100000
+    runs = [(base + n, th) for n in range(40 if tier == "quick" else 300) for th in ((4,) if tier == "quick" else (2, 4, 8))]
+    if replay:
+        rec = json.load(open(replay))["record"]
+        runs = [(rec["seed"], rec["threads"])] * 20
+    for (sd, th) in runs:
+        pr = subprocess.run([binp, "cache", str(sd), str(th), plugin, obs], cwd=WORK, timeout=120,
+                            stdout=subprocess.PIPE, stderr=subprocess.PIPE, env=dict(os.environ, RUST_BACKTRACE="0"))
+        if pr.returncode != 0:
+            with open(obs, "a") as o:
+                o.write(json.dumps({"seed": sd, "threads": th, "events": [], "hung": True, "results_ok": False,
+                                    "died": "process exited with %s: %s" % (pr.returncode, pr.stderr.decode(errors="replace")[-200:])}) + "\n")
+    observations = [json.loads(l) for l in open(obs)]
+    t = vlib.run_tlc("CacheTrace.tla", "CacheTrace.cfg", "cachetrace_" + tier, workers=8, timeout=3000, extra_env={"OBS": obs}, java_opts="-Xss1g -Xmx8g")
+    if t["violated"]:
+        raise ToolError("CacheTrace: unexpected TLC error (see %s)" % t["out"])
+    rej = obs + ".rej"
+    vlib.printed_json(t["out"], rej)
+    for line in open(rej):
+        j = json.loads(line)
+        o = observations[j["i"] - 1]
+        v.report("c16.trace", {"t": None}, "seed %s, %s threads :: %s %s" % (o["seed"], o["threads"], j["verdict"], o.get("died", "")),
+                 {"seed": o["seed"], "threads": o["threads"], "events": o["events"][:400]})
+    races = sum(1 for o in observations if sum(1 for e in o["events"] if e["l"] == "Miss") >= 2)
+    nev = sum(len(o["events"]) for o in observations)
+    samples = [{"seed": o["seed"], "threads": o["threads"], "first_events": o["events"][:14]} for o in observations[:1]]
+    cov = {"states": r["stats"]["distinct"] + t["stats"]["distinct"], "transitions": r["stats"]["generated"] + t["stats"]["generated"],
+           "traces_validated_against_impl": len(observations), "evaluations": len(observations), "distinct_nontrivial": races,
+           "rule": "model: all interleavings of the thread programs of CacheMC (first use of the same and of different interfaces, cached creation, calls, calls "
+                   "that create nested connections, load_shared_library); implementation: one process per run, N threads started at a barrier performing seeded "
+                   "random operations (create / load a real cdylib / call / calls with boxed-trait arguments that create further connections); "
+                   "non-trivial = runs with at least two first-use negotiations",
+           "events_validated": nev, "samples": samples, "exhaustive": False,
+           "explanation": "TLC checks Cache.tla exhaustively for the configured threads: no deadlock, OneNegotiationPerKey, TemplatesNegotiated, LockOrder, "
+                          "ResultsEqualSequential and (liveness, weak fairness per thread) EveryOpCompletes; recorded traces of real multi-threaded runs - hook events "
+                          "emitted under the protecting mutex, ordered by a sequence number taken under it - are validated by TLC against CacheTrace.tla (every event "
+                          "enabled in the replayed cache state, all mutexes released, all threads finished, results equal the sequential ones)"}
+    return v.finish("model_checking", cov, [
+        "the model is exhaustive for 2 threads (quick) / 3 threads (thorough); real runs sample interleavings (barrier start, seeded yields in the hooks)",
+        "outside the property's quantifier but visible in the model: the template mutex is held across CreateInstance, so an implementation whose constructor "
+        "creates a connection would self-deadlock; a panic under that mutex poisons all later connections"])
